@@ -104,7 +104,8 @@ def run(ctx):
             ctx.finding("crash-corpus-" + f, "corpus history %s crashes" % f, {"program": steps, "rc": rc})
 
     PM, LM, PX, LX = (16, 30, 24, 40) if ctx.tier == "quick" else (120, 80, 160, 100)
-    p = core.sh([exe, str(PM), str(LM), str(PX), str(LX)], env={"VERIF_SEED": str(ctx.seed), "VERIF_TIER": ctx.tier}, timeout=7200)
+    PL, LL = (60, 12) if ctx.tier == "quick" else (600, 14)
+    p = core.sh([exe, str(PM), str(LM), str(PX), str(LX), str(PL), str(LL)], env={"VERIF_SEED": str(ctx.seed), "VERIF_TIER": ctx.tier}, timeout=7200)
     if p.returncode != 0:
         rp = core.write_replay(ctx.pid, "harness-crash", {"rc": p.returncode, "stderr_tail": p.stderr[-3000:]})
         raise core.Violation("c05_values itself failed (rc=%d)" % p.returncode, rp)
@@ -196,6 +197,9 @@ def run(ctx):
                 "counters": dict(stats), "ops": dict(ops), "makeunique_sites": ["%s:%d %s" % s for s in sites], **san,
                 "rule": "manifold histories of %d-%d steps and CrossSection histories of %d-%d steps over pools of <= 24 live objects (one child process each); ~25%% value operations "
                         "(copy, assign over a live slot, move-assign, move-construct, destroy, += -= ^= in place, deferred look), 25%% of results first observed later; every live object re-observed after every step; "
-                        "impl family: 9 methods x 4 shapes with artificially shared halfedge buffers; distinct = distinct event streams + CrossSection histories" % (LM, 2 * LM, LX, 2 * LX),
+                        "lazy family: %d histories of %d-%d steps made only of lazily evaluated operations (Booleans, batch, transforms, Booleans on temporary transformed views) over generic-position "
+                        "primitives with copies/assignments/moves/destructions, pools of <= 9, nothing observed before the end, compared as solids with the eager run of the same program (a crash of the lazy run "
+                        "after the eager run completed is a violation); "
+                        "impl family: 9 methods x 4 shapes with artificially shared halfedge buffers; distinct = distinct event streams + CrossSection histories" % (LM, 2 * LM, LX, 2 * LX, PL, LL, LL + 12),
                 "samples": [{"case": c["tag"], "monitor": c.get("model", "")} for c in cs[:3] + [c for c in cs if " impl " in c["tag"]][:2]]})
     return cov
